@@ -462,11 +462,19 @@ def forward_signatures(func, calls, args, kwargs, sig):
         except UnresolvableName:
             raise UnknownForwards
         fwdargsvals = [rn(arg) for arg in fwdargs]
-        fwdargsvals.extend(rn(fwdvarargs))
         fwdkwargsvals = dict((n, rn(arg)) for n, arg in fwdkwargs.items())
-        fwdkwargsvals.update(rn(fwdvarkwargs))
+        try:
+            fwdargsvals.extend(rn(fwdvarargs))
+            fwdkwargsvals.update(rn(fwdvarkwargs))
+        except (TypeError, ValueError):
+            # the other starred argument resolves to something that is
+            # not a sequence / a mapping
+            raise UnknownForwards
         using_partial = wrapped_func == functools.partial
         if using_partial:
+            if not fwdargsvals:
+                # partial(*args, **kwargs): what is wrapped is not known
+                raise UnknownForwards
             wrapped_func = fwdargsvals.pop(0)
         try:
             wrapped_sig = forged_signature(
